@@ -348,6 +348,7 @@ type c13Run struct {
 	unsure    bool // the model no longer knows mailbox or marks: nothing is asserted
 	ending    string
 	ambiguous bool // QUIT was sent in TRANSACTION state but its reply was not read
+	quitUnreadCommitted bool // ... and the connection was not reset: the server did receive it
 	marked    map[string]bool
 
 	open         bool // connection established and not yet ended by the client
@@ -793,7 +794,11 @@ func (r *c13Run) runClient() {
 		if i == len(k.Script)-1 && c13Unread(k.End) {
 			lastUnread = true
 			if verb == "QUIT" && r.state == "txn" {
-				r.ambiguous = true
+				// QUIT is on its way and its reply will not be read.  If the client now
+				// resets the connection the line may never reach the server; if it closes
+				// or just stays silent the server receives QUIT, and QUIT commits.
+				r.ambiguous = k.End == "abort-unread"
+				r.quitUnreadCommitted = !r.ambiguous
 				if r.model != nil {
 					for _, id := range r.model.MarkedIDs() {
 						r.marked[id] = true
@@ -958,7 +963,10 @@ func runC13(c *Ctx, cs Case) {
 	c.Logf("session over: ending=%s ambiguous=%v mailbox=%q marked=%d external changes=%d", r.ending, r.ambiguous, r.mailbox, len(r.marked), r.extChanges)
 
 	// ---- after the session: what did the store lose? ----
-	commit := r.ending == "quit-txn"
+	commit := r.ending == "quit-txn" || r.quitUnreadCommitted
+	if r.quitUnreadCommitted {
+		c.Stat("probe.quit_sent_reply_unread_connection_not_reset", 1)
+	}
 	if (commit || r.ambiguous) && r.unsure {
 		c.Stat("probe.final_check_skipped_model_unsure", 1)
 	} else {
